@@ -40,7 +40,9 @@ class FakeTime:
         return float(self.now)
 
 
-CLIENT_INFOS = [{}, {"name": "c", "version": "1"}, {"name": "é", "version": "2", "extra": [1, None]}]
+CLIENT_INFOS = [{}, {"name": "c", "version": "1"}, {"name": "é", "version": "2", "extra": [1, None]},
+                # what small or sloppy clients send: a partial record, explicit nulls, only vendor members - recorded as sent
+                {"name": "tiny-client"}, {"version": "9"}, {"name": "n", "version": "1", "title": None}, {"title": "T", "x-vendor": {"k": None}}, {"name": "", "version": ""}]
 VERSIONS = ["2025-06-18", "2025-03-26", "2024-11-05", "1999-01-01"]
 
 
@@ -66,8 +68,15 @@ def check(case: Dict[str, Any]) -> Outcome:
         async def _fine(message, session_id):
             return handler.create_response(getattr(message, "id", None), {"ok": True}), None
 
+        async def _slow(message, session_id):
+            import asyncio as _a
+
+            await _a.sleep(5.0)
+            return handler.create_response(getattr(message, "id", None), {"ok": "slow"}), None
+
         handler.register_method("boom/raise", _boom)  # a registered method whose handler fails (answered with -32603)
         handler.register_method("fine/ok", _fine)
+        handler.register_method("slow/wait", _slow)  # a handler that takes a while (its request may be abandoned meanwhile)
         store = handler.session_manager
         model: Dict[str, Dict[str, Any]] = {}
         ever: List[str] = []  # every id ever created (incl. deleted / expired)
@@ -240,11 +249,21 @@ def check(case: Dict[str, Any]) -> Outcome:
                     msg = parse_message({"jsonrpc": "2.0", "id": req_id, "method": method})
 
                     async def go2():
-                        return await handler.handle_message(msg, sid)
+                        if method != "slow/wait":
+                            return await handler.handle_message(msg, sid)
+                        # the transport gives up on this request while its handler is still running (the client
+                        # disconnected, a timeout around the dispatch): the dispatching task is cancelled
+                        import asyncio as _a
+
+                        t_ = _a.ensure_future(handler.handle_message(msg, sid))
+                        await _a.sleep(0.1)
+                        t_.cancel()
+                        await _a.gather(t_, return_exceptions=True)
+                        flags["dispatch_cancelled_mid_handler"] = True
 
                     run_virtual(go2)
                     if sid in model:
-                        if method in ("ping", "boom/raise", "fine/ok"):
+                        if method in ("ping", "boom/raise", "fine/ok", "slow/wait"):
                             # a request for a registered method is activity of that session, whether its handler succeeds or not
                             model[sid]["last_activity"] = float(clock.now)
                         else:
@@ -272,8 +291,8 @@ def check(case: Dict[str, Any]) -> Outcome:
 _ref = st.one_of(st.integers(0, 5), st.just("unknown"))
 _dt = st.sampled_from([0, 1, 1, 59, 60, 61, 3599, 3600, 3601, 86400])
 _op = st.one_of(
-    st.tuples(st.just("create"), st.integers(0, 2), st.integers(0, 3)).map(list),
-    st.tuples(st.just("create"), st.integers(0, 2), st.integers(0, 3), st.sampled_from([{}, {"k": "v"}, {"n": None}])).map(list),
+    st.tuples(st.just("create"), st.integers(0, 7), st.integers(0, 3)).map(list),
+    st.tuples(st.just("create"), st.integers(0, 7), st.integers(0, 3), st.sampled_from([{}, {"k": "v"}, {"n": None}])).map(list),
     st.tuples(st.just("get"), _ref).map(list),
     st.tuples(st.just("update"), _ref).map(list),
     st.tuples(st.just("delete"), _ref).map(list),
@@ -283,9 +302,9 @@ _op = st.one_of(
     st.tuples(st.just("cleanup"), st.tuples(st.just("idle_of"), st.integers(0, 5), st.sampled_from([-1, 0, 1])).map(list)).map(list),
     st.tuples(st.just("list_mutate"), st.sampled_from(["add", "remove", "clear"])).map(list),
     st.just(["clear"]),
-    st.tuples(st.just("init"), st.sampled_from(VERSIONS + [None, "draft", 7]), st.integers(0, 2)).map(list),
-    st.tuples(st.just("reinit"), st.sampled_from(VERSIONS + [None]), st.integers(0, 2), _ref, st.sampled_from(["same", "other"])).map(list),
-    st.tuples(st.just("dispatch"), st.sampled_from(["ping", "ping", "nope/method", "boom/raise", "fine/ok"]), _ref).map(list),
+    st.tuples(st.just("init"), st.sampled_from(VERSIONS + [None, "draft", 7]), st.integers(0, 7)).map(list),
+    st.tuples(st.just("reinit"), st.sampled_from(VERSIONS + [None]), st.integers(0, 7), _ref, st.sampled_from(["same", "other"])).map(list),
+    st.tuples(st.just("dispatch"), st.sampled_from(["ping", "ping", "nope/method", "boom/raise", "fine/ok", "slow/wait"]), _ref).map(list),
 )
 
 
@@ -300,7 +319,7 @@ def job_hyp(col: Collector, seed: int, tier: str, shard: int, n: int, max_len: i
 ALPHABET: List[List[Any]] = [
     ["create", 1, 0], ["get", 0], ["get", 1], ["update", 0], ["update", 1], ["delete", 0], ["delete", 1],
     ["advance", 1], ["advance", 60], ["cleanup", 60], ["cleanup", 0], ["cleanup", ["idle_of", 0, 0]],
-    ["list_mutate", "remove"], ["list_mutate", "add"], ["dispatch", "ping", 0], ["dispatch", "boom/raise", 0], ["reinit", "2025-03-26", 1, 0, "same"],
+    ["list_mutate", "remove"], ["list_mutate", "add"], ["dispatch", "ping", 0], ["dispatch", "boom/raise", 0], ["reinit", "2025-03-26", 1, 0, "same"], ["dispatch", "slow/wait", 0],
 ]
 
 
@@ -341,22 +360,22 @@ def job_machine(col: Collector, seed: int, tier: str, shard: int, n: int, steps:
             self.n += 1
             return self.n - 1
 
-        @initialize(target=sessions, ci=st.integers(0, 2), ver=st.integers(0, 3))
+        @initialize(target=sessions, ci=st.integers(0, 7), ver=st.integers(0, 3))
         def first(self, ci, ver):
             self.ops.append(["create", ci, ver])
             return self._new()
 
-        @rule(target=sessions, ci=st.integers(0, 2), ver=st.integers(0, 3), meta=st.sampled_from([None, {}, {"k": "v"}, {"n": None}]))
+        @rule(target=sessions, ci=st.integers(0, 7), ver=st.integers(0, 3), meta=st.sampled_from([None, {}, {"k": "v"}, {"n": None}]))
         def create(self, ci, ver, meta):
             self.ops.append(["create", ci, ver] + ([meta] if meta is not None else []))
             return self._new()
 
-        @rule(target=sessions, ver=st.sampled_from(VERSIONS + [None, "draft", 7]), ci=st.integers(0, 2))
+        @rule(target=sessions, ver=st.sampled_from(VERSIONS + [None, "draft", 7]), ci=st.integers(0, 7))
         def initialize_request(self, ver, ci):
             self.ops.append(["init", ver, ci])
             return self._new()
 
-        @rule(target=sessions, s=sessions, ver=st.sampled_from(VERSIONS + [None]), ci=st.integers(0, 2), how=st.sampled_from(["same", "other"]))
+        @rule(target=sessions, s=sessions, ver=st.sampled_from(VERSIONS + [None]), ci=st.integers(0, 7), how=st.sampled_from(["same", "other"]))
         def initialize_again_on(self, s, ver, ci, how):
             self.ops.append(["reinit", ver, ci, s, how])
             return self._new()
@@ -393,7 +412,7 @@ def job_machine(col: Collector, seed: int, tier: str, shard: int, n: int, steps:
         def list_and_mutate(self, how):
             self.ops.append(["list_mutate", how])
 
-        @rule(s=sessions, method=st.sampled_from(["ping", "ping", "nope/method", "boom/raise", "fine/ok"]))
+        @rule(s=sessions, method=st.sampled_from(["ping", "ping", "nope/method", "boom/raise", "fine/ok", "slow/wait"]))
         def dispatch(self, s, method):
             self.ops.append(["dispatch", method, s])
 
@@ -439,13 +458,25 @@ def job_soak(col: Collector, seed: int, tier: str) -> None:
     col.exhaustive_parts.append("6 long lives of ~300 session-bound operations with gaps of up to a day and a single cleanup at the very end")
 
 
-JOBS = {"hyp": job_hyp, "exhaustive": job_exhaustive, "machine": job_machine, "soak": job_soak}
+def job_client_infos(col: Collector, seed: int, tier: str) -> None:
+    """every client-info shape (empty, full, partial, explicit nulls, vendor members only) x every requested version through
+    initialize, then traffic, a re-initialisation with the same record and an abandoned request followed by a cleanup"""
+    for ci in range(len(CLIENT_INFOS)):
+        for ver in VERSIONS + [None, "draft"]:
+            ops = [["init", ver, ci], ["dispatch", "ping", 0], ["reinit", ver if ver in VERSIONS else None, ci, 0, "same"], ["get", 0], ["get", 1],
+                   ["dispatch", "slow/wait", 0], ["advance", 4000], ["dispatch", "fine/ok", 1], ["cleanup", 3600], ["get", 0], ["get", 1]]
+            case = {"ops": ops}
+            col.record(case, check(case))
+    col.exhaustive_parts.append(f"{len(CLIENT_INFOS)} client-info shapes x {len(VERSIONS) + 2} requested versions through initialize / re-initialise / abandoned request / expiry")
+
+
+JOBS = {"client_infos": job_client_infos, "hyp": job_hyp, "exhaustive": job_exhaustive, "machine": job_machine, "soak": job_soak}
 
 
 def jobs(tier: str):
     if tier == "quick":
-        return [("hyp", {"shard": s, "n": 250, "max_len": 60}) for s in range(8)] + [("exhaustive", {"shard": s, "nshards": 6, "maxlen": 4}) for s in range(6)] + [("machine", {"shard": s, "n": 150, "steps": 50}) for s in range(2)] + [("soak", {})]
-    return [("hyp", {"shard": s, "n": 4000, "max_len": 200}) for s in range(8)] + [("exhaustive", {"shard": s, "nshards": 16, "maxlen": 5}) for s in range(16)] + [("machine", {"shard": s, "n": 3000, "steps": 120}) for s in range(4)] + [("soak", {})]
+        return [("hyp", {"shard": s, "n": 250, "max_len": 60}) for s in range(8)] + [("exhaustive", {"shard": s, "nshards": 6, "maxlen": 4}) for s in range(6)] + [("machine", {"shard": s, "n": 150, "steps": 50}) for s in range(2)] + [("soak", {}), ("client_infos", {})]
+    return [("hyp", {"shard": s, "n": 4000, "max_len": 200}) for s in range(8)] + [("exhaustive", {"shard": s, "nshards": 16, "maxlen": 5}) for s in range(16)] + [("machine", {"shard": s, "n": 3000, "steps": 120}) for s in range(4)] + [("soak", {}), ("client_infos", {})]
 
 
 def shrink(signature: str, seed: int):
